@@ -22,7 +22,7 @@ CFGS = {
     "thorough": [("c11-a", dict(EmitMod=8, MaxStmts=9, MaxRows=3, MaxFlush=2, MaxEvict=1, Tables='{"t1"}', Vals="{1}", Ops='{"create", "insert", "delete"}'), 40000),
                  ("c11-b", dict(MaxStmts=7, MaxRows=3, MaxFlush=0, Vals="{1}", Ops='{"create", "insert"}'), 40000),
                  ("c11-c", dict(EmitMod=6, CrashAt='{"idle"}', MaxCrash=2, MaxStmts=6, MaxRows=3, MaxFlush=1, Tables='{"t1"}', Vals="{1}"), 40000),
-                 ("c11-d", dict(MaxStmts=6, MaxRows=3, MaxFlush=1, Tables='{"t1"}', Vals="{1, 2}"), 40000),
+                 ("c11-d", dict(EmitMod=16, MaxStmts=6, MaxRows=2, MaxFlush=1, Tables='{"t1"}', Vals="{1, 2}"), 40000),
                  ("c11-case", dict(MaxStmts=6, MaxRows=3, MaxFlush=1, Tables='{"t1", "T1"}', Vals="{1}", Ops='{"create", "insert", "delete"}'), 40000)],
 }
 
